@@ -277,6 +277,31 @@ Fixpoint distinct_next (seen : list rowkey) (cs : list chunk) : option (chunk * 
 Definition drain_distinct (cs : list chunk) : list chunk :=
   drain_st distinct_next (fuel_of cs) [] cs.
 
+(** PROPOSED repair proposed-fixes/C11-distinct-chunk.diff (not in /repo while finding C11-K5 is
+    open; Run.v's [fix_k5_applied] selects which transcription the run compares with): the
+    output builder is sized by the input chunk and there is no early return — one output chunk
+    per input chunk, every fresh row copied *)
+Fixpoint distinct_chunk_fix (rows : list row) (seen : list rowkey) : list row * list rowkey :=
+  match rows with
+  | [] => ([], seen)
+  | r :: t =>
+      let k := row_key r in
+      if seen_mem k seen then distinct_chunk_fix t seen
+      else let (o, s) := distinct_chunk_fix t (k :: seen) in (r :: o, s)
+  end.
+Fixpoint distinct_next_fix (seen : list rowkey) (cs : list chunk) : option (chunk * list rowkey * list chunk) :=
+  match cs with
+  | [] => None
+  | c :: rest =>
+      let (o, s) := distinct_chunk_fix (lrows c) seen in
+      match o with
+      | [] => distinct_next_fix s rest
+      | _ => Some (mkChunk o None, s, rest)
+      end
+  end.
+Definition drain_distinct_fix (cs : list chunk) : list chunk :=
+  drain_st distinct_next_fix (fuel_of cs) [] cs.
+
 (** specification: first occurrences, w.r.t. the row key *)
 Fixpoint dedup_from (seen : list rowkey) (l : list row) : list row :=
   match l with
@@ -423,10 +448,21 @@ Definition count_query (l : lang) (s n : option Z) (rows : list row) : list row 
 Definition count_spec (s n : option Z) (rows : list row) : list row :=
   window_spec false s n [[VInt (Z.of_nat (length rows))]].
 
+(** PROPOSED repair proposed-fixes/C11-gql-skip-limit-order.diff (finding C11-K2): the GQL
+    translator applies SKIP and LIMIT above ORDER BY and above the aggregate, as Cypher does *)
+Definition window_query_fix (l : lang) (ord : bool) (s n : option Z) (rows : list row) : list row :=
+  window_query Cypher ord s n rows.
+Definition count_query_fix (l : lang) (s n : option Z) (rows : list row) : list row :=
+  count_query Cypher s n rows.
+
 (** [RETURN DISTINCT x]: [plan_return] never looks at [ReturnOp::distinct] — no Distinct operator
     is planned; [WITH DISTINCT x ... RETURN x] plans a [DistinctOperator]. *)
 Definition return_distinct_query (rows : list row) : list row := rows_of (scan_chunks rows).
 Definition with_distinct_query (rows : list row) : list row := rows_of (drain_distinct (scan_chunks rows)).
+
+(** PROPOSED repair proposed-fixes/C11-return-distinct.diff (finding C11-K3): [plan_return] wraps
+    the projection in a [DistinctOperator] when [ReturnOp::distinct] is set *)
+Definition return_distinct_query_fix (rows : list row) : list row := rows_of (drain_distinct (scan_chunks rows)).
 
 (** * [Planner::plan_filter] (planner.rs): a range predicate directly over a node scan is not
       evaluated by the Filter operator but by [LpgStore::find_nodes_in_range] (store.rs), which
